@@ -16,6 +16,7 @@ SPEC = {
             "In a third of the oprf cases the key is decoded into a PrivateKey object that already held another key; qndleq proofs also carry boundary values of SecParam (top of the uint range, 2^k and 2^k±1). "
             "Half of the oprf cases use one client and one server object for every call, half run a buffer-reuse scenario (info, inputs and blinds rewritten in place and handed to the same objects again); "
             "oprf-lengths compares DeriveKey and FullEvaluate with the reference at field lengths 0,1,255..257,511..513,65534,65535 in every suite and mode; qndleq exponents range over [0,N), [N,N+5], k*N+x0, |N|+384 bits and negative values. "
+            "Every call is wrapped in an operands-unchanged check (scalars, elements, integers and byte slices snapshotted before, compared after) and secrets are used for a second proof; dleq-large-batch proves batches of 255..258, 300, 513 pairs against the reference. "
             "non-trivial = the evaluated case contains an alteration, a false statement, a degenerate/forged proof, a second blind vector, a boundary-length comparison with the reference, a caller buffer rewritten in place, or an OT "
             "run with swapped ciphertexts (honest-only evaluations are counted as evaluations but not as non-trivial); distinct by FNV-64 of "
             "(sub-check, case description, alteration). Alterations that turn out to be the identity, or that only re-encode the same scalars "
